@@ -20,9 +20,28 @@ use std::sync::Arc;
 
 pub use super::util::{counters, message, Counters};
 
+/// `Arc<String>` allocated in a typed static arena (see `typed_arc!` in mod.rs for why): the offset
+/// file path is read back through this Arc on every later store, and a heap `Arc` whose reference
+/// count has been touched is no longer constant-folded by CBMC, which makes every file lookup symbolic.
+static mut PATH_ARENA: [crate::verif::TypedArcInner<String>; 8] = [const {
+    crate::verif::TypedArcInner { strong: core::sync::atomic::AtomicUsize::new(1), weak: core::sync::atomic::AtomicUsize::new(1), data: String::new() }
+}; 8];
+static mut PATH_ARENA_NEXT: usize = 0;
+
+#[allow(static_mut_refs)]
+fn typed_arc_string(s: String) -> Arc<String> {
+    unsafe {
+        let i = PATH_ARENA_NEXT;
+        assert!(i < 8, "path arena exhausted (harness bound)");
+        PATH_ARENA_NEXT = i + 1;
+        PATH_ARENA[i].data = s;
+        Arc::from_raw(&PATH_ARENA[i].data as *const String)
+    }
+}
+
 pub fn consumer_offset_new_stub(kind: ConsumerKind, consumer_id: u32, offset: u64, path: &str) -> ConsumerOffset {
     let s = string_of(&[path.as_bytes(), b"/", &enc32(consumer_id)]);
-    ConsumerOffset { kind, consumer_id, offset, path: Arc::new(s) }
+    ConsumerOffset { kind, consumer_id, offset, path: typed_arc_string(s) }
 }
 
 pub fn storage(cfg: &Arc<SystemConfig>) -> Arc<SystemStorage> {
